@@ -101,11 +101,11 @@ Lemma conn_ok_f1 g h0 tbl0 H0 i a ks : f1_ok h0 tbl0 (RN i a ks) -> h0 <> H0 -> 
 Proof.
   intros Hk Hne Hne0. assert (E : (h0 =? H0) = false) by (apply N.eqb_neq; exact Hne). assert (E0 : (0 =? H0) = false) by (apply N.eqb_neq; exact Hne0).
   cbn [f1_ok] in Hk.
-  destruct Hk as [(nm & ->)|[(bk & off & nm & p & po & rest & -> & _)|[(off & w & v & -> & _)|[(off & ->)|[(off & -> & _)|[(off & nm & p & po & c & co & d & -> & _ & _)|[(off & d & -> & Hc & _)|(lk & off & nm & p & po & rest & -> & _)]]]]]]].
+  destruct Hk as [(nm & ->)|[(bk & off & nm & p & po & rest & -> & _)|[(off & w & v & -> & _)|[(off & ->)|[(off & -> & _)|[(off & nm & p & po & c & co & d & -> & _ & _)|[(off & d & -> & Hc & _)|[(lk & off & nm & p & po & rest & -> & _)|(off & bs & -> & _)]]]]]]]].
   all: try (destruct bk); try (destruct w); try (destruct lk);
     try (unfold cst_pay; cbn [y_info y_op y_th]; destruct (is_constb_cases _ Hc) as [E1|[E1|[E1|[E1|[E1|[E1|E1]]]]]]; rewrite E1);
     (do 3 eexists; split; [reflexivity|]);
-    cbn [blk_pay num_pay sb_pay pth_pay nam_pay lf_pay y_th y_op]; rewrite ?E, ?E0, ?N.eqb_refl; cbn [negb orb]; rewrite ?orb_true_r; reflexivity.
+    cbn [blk_pay num_pay sb_pay pth_pay nam_pay lf_pay str_pay y_th y_op]; rewrite ?E, ?E0, ?N.eqb_refl; cbn [negb orb]; rewrite ?orb_true_r; reflexivity.
 Qed.
 
 (** ---- the first table ---- *)
